@@ -1134,6 +1134,17 @@ static bool canResend(ssl_t *ssl)
         {
             canSend = 0;
         }
+        /* Likewise a client of a full handshake that waits for the server's
+           FINISHED without ever having activated its write cipher: its
+           ClientKeyExchange/CCS/Finished flight was never built (its state
+           was advanced by a ServerHelloDone whose record carried trailing
+           junk), so there is nothing to retransmit */
+        if (!(ssl->flags & SSL_FLAGS_RESUMED) &&
+            ssl->hsState == SSL_HS_FINISHED &&
+            !(ssl->flags & SSL_FLAGS_WRITE_SECURE))
+        {
+            canSend = 0;
+        }
         /* Nor is it safe while the client is midway through the server's
            flight (waiting for CERTIFICATE, SERVER_KEY_EXCHANGE,
            CERTIFICATE_REQUEST or SERVER_HELLO_DONE): the client has nothing
